@@ -30,6 +30,13 @@ func GenDir(r *core.Rand) pipe.DirPlan {
 	}
 	scale := []int{0, 10, 200, 3000, 50000}[r.Intn(5)]
 	d.LatUs = core.Tape(r, r.Range(1, 6), func() int { return r.Intn(scale + 1) })
+	// back-pressure: a writer that runs ahead of the reader blocks (net.Pipe, a full TNC buffer)
+	switch r.Pick(14, 3, 3) {
+	case 1:
+		d.Window = r.Range(1, 64)
+	case 2:
+		d.Window = r.Range(65, 2000)
+	}
 	return d
 }
 
